@@ -1,7 +1,8 @@
 ------------------------------- MODULE ResetTrace -------------------------------
 (* C17: behaviour depends only on the call history; Reset equals a fresh machine.                           *)
 (* The modelled machine state is the complete observation vector (registers, latches, timers, ICU, both      *)
-(* mailboxes, MMIO read-back of every register, DMA channel windows, audio ports, memory).  The              *)
+(* mailboxes, MMIO read-back of every register, DMA channel windows, audio ports, the hidden AHBM burst     *)
+(* FIFOs, the external-memory traffic, memory).  The                                                        *)
 (* specification is the state machine                                                                        *)
 (*      New -> fresh --Reset--> reset --history--> dirty --Reset--> reset ...                                *)
 (* in which `reset` and `fresh` are ONE state: FreshReset, the observation of the first instance of a         *)
@@ -17,7 +18,7 @@ VARIABLES vL, vRef, vHeld, vMode
 rvars == <<vL, vRef, vHeld, vMode>>
 Rec == Log[vL]
 
-Groups == {"r", "lat", "tm", "icu", "icuvec", "apbp", "apbpdis", "dma", "mmio", "btdmp", "memnz", "memfirst"}
+Groups == {"r", "lat", "tm", "icu", "icuvec", "apbp", "apbpdis", "dma", "mmio", "btdmp", "ahbm", "ext", "memnz", "memfirst"}
 DiffGroups(a, b) == {g \in Groups : a[g] # b[g]}
 \* first few differing positions of a group (1-based), for the report
 Where(a, b, g) == IF g = "memnz" THEN <<a[g], b[g]>>
@@ -32,7 +33,8 @@ Zeros(n) == [i \in 1 .. n |-> 0]
 FreshResetConst ==
     [r |-> Pack(ResetRegs), lat |-> Zeros(7), tm |-> Zeros(20), icu |-> Zeros(5), icuvec |-> Zeros(48),
      apbp |-> <<1, 0, 0, 1, 0, 0, 1, 0, 0>> \o Zeros(9), apbpdis |-> Zeros(6), dma |-> Zeros(130),
-     btdmp |-> <<0, 4096, 0, 1, 0, 0, 0, 0, 4096, 0, 1, 0, 0, 0>>, memnz |-> 0, memfirst |-> <<>>]
+     btdmp |-> <<0, 4096, 0, 1, 0, 0, 0, 0, 4096, 0, 1, 0, 0, 0>>, ahbm |-> Zeros(40), ext |-> <<0, 0, 0>>,
+     memnz |-> 0, memfirst |-> <<>>]
 ConstGroups == DOMAIN FreshResetConst
 ReportRef(o) == LET D == {g \in ConstGroups : o[g] # FreshResetConst[g]} IN
                 D = {} \/ PrintT(<<"DIFF", vL, "reference", D, [g \in D |-> Where(o, FreshResetConst, g)]>>)
